@@ -22,6 +22,8 @@ type cfg struct {
 	Tree  []hx.Spec
 	K     int
 	Late  string // "": none; "root": late Subscribe on the root publisher; "clone": on the first clone
+	CloseLeaf string // path of a leaf that is closed concurrently with the stream (its siblings must not notice)
+	Prop  string
 	Mode  string
 	Bound int
 }
@@ -70,6 +72,15 @@ func (in *inst) run() {
 		}
 		in.pubFinished = true
 	}()
+	if in.c.CloseLeaf != "" {
+		go func() {
+			hx.Walk(in.nodes, func(n *hx.Node) {
+				if n.Path == in.c.CloseLeaf {
+					n.Close()
+				}
+			})
+		}()
+	}
 	if in.c.Late != "" {
 		go func() {
 			var p kcache.Publisher = in.root.Pub
@@ -109,8 +120,20 @@ func (in *inst) check(r *vs.Result) []string {
 		if !n.IsLeaf() {
 			return
 		}
-		if got := strings.Join(n.Received, " "); got != want {
-			msgs = append(msgs, fmt.Sprintf("leaf stream differs from published sequence | tree %v leaf %s received [%s], published [%s]", in.c.Tree, n.Path, got, want))
+		got := strings.Join(n.Received, " ")
+		if n.Path == in.c.CloseLeaf || (in.c.CloseLeaf != "" && strings.HasPrefix(n.Path, in.c.CloseLeaf+"/")) {
+			// the closed leaf sees a prefix of the stream
+			if !strings.HasPrefix(want, got) {
+				msgs = append(msgs, fmt.Sprintf("closed leaf stream is not a prefix | leaf %s received [%s], published [%s]", n.Path, got, want))
+			}
+			return
+		}
+		if got != want {
+			class := "leaf stream differs from published sequence"
+			if in.c.CloseLeaf != "" {
+				class = "closing a subscription disturbs its siblings"
+			}
+			msgs = append(msgs, fmt.Sprintf("%s | tree %v (leaf %q closed mid-stream) leaf %s received [%s], published [%s]", class, in.c.Tree, in.c.CloseLeaf, n.Path, got, want))
 		}
 		if len(n.GetOlder) > 0 {
 			msgs = append(msgs, fmt.Sprintf("cache older than event | leaf %s: %v", n.Path, n.GetOlder))
@@ -162,8 +185,30 @@ func (in *inst) outcome() string {
 func sub() hx.Spec                   { return hx.Spec{Kind: "sub"} }
 func clone(c ...hx.Spec) hx.Spec     { return hx.Spec{Kind: "clone", Children: c} }
 
+// SiblingScenarios: a leaf is closed while events are flowing; its siblings must receive everything (used by C05 and C11).
+func SiblingScenarios(prop, tier string) []runner.Sc {
+	t3 := []hx.Spec{sub(), sub(), sub()}
+	t2c := []hx.Spec{sub(), clone(sub())}
+	out := []runner.Sc{
+		scenario(cfg{Prop: prop, Name: "sub,sub", Tree: []hx.Spec{sub(), sub()}, K: 2, CloseLeaf: "0:sub", Mode: "S1"}),
+		scenario(cfg{Prop: prop, Name: "sub,sub,sub", Tree: t3, K: 3, CloseLeaf: "0:sub", Mode: "S2", Bound: 2}),
+		scenario(cfg{Prop: prop, Name: "sub,clone(sub)", Tree: t2c, K: 3, CloseLeaf: "0:sub", Mode: "S2", Bound: 2}),
+	}
+	if tier == "thorough" {
+		out = append(out,
+			scenario(cfg{Prop: prop, Name: "sub,sub,sub", Tree: t3, K: 3, CloseLeaf: "1:sub", Mode: "S2", Bound: 3}),
+			scenario(cfg{Prop: prop, Name: "sub,sub", Tree: []hx.Spec{sub(), sub()}, K: 3, CloseLeaf: "0:sub", Mode: "S1"}),
+		)
+	}
+	return out
+}
+
 func scenario(c cfg) runner.Sc {
-	name := fmt.Sprintf("c05/%s/K%d/late=%s/%s%d", c.Name, c.K, c.Late, c.Mode, c.Bound)
+	pfx := "c05"
+	if c.Prop != "" {
+		pfx = strings.ToLower(c.Prop)
+	}
+	name := fmt.Sprintf("%s/%s/K%d/late=%s/close=%s/%s%d", pfx, c.Name, c.K, c.Late, c.CloseLeaf, c.Mode, c.Bound)
 	return runner.Sc{
 		Scenario: explore.Scenario{
 			Name: name, Mode: c.Mode, Bound: c.Bound,
@@ -202,6 +247,7 @@ func Property() runner.Property {
 				scenario(cfg{Name: "clone(sub),sub", Tree: t2, K: 3, Late: "clone", Mode: "S2", Bound: 2}),
 				scenario(cfg{Name: "clone(sub,sub),sub", Tree: t4, K: 4, Mode: "S2", Bound: 2}),
 			}
+			out = append(out, SiblingScenarios("C05", tier)...)
 			if tier == "thorough" {
 				out = append(out,
 					scenario(cfg{Name: "sub,sub", Tree: t1, K: 2, Mode: "S1"}),
